@@ -120,7 +120,7 @@ CLAIMS = {
         "(m-of-n multisig) exactly the C03 specification SigPure.multisig of the witness's m signature items against the lock's keys (multisigLock_run, through checkMultisig_instruction) - so by C03 true only with pairwise distinct signatures matched to m different listed keys; "
         "(script hash) a script that does not hash to the committed hash ends the lock in an error before OP_EVAL, only the stack changed (scripthashLock_rejects); one that does is evaluated and the lock ends exactly as that script does (scripthashLock_accepts); (graftroot) the key path ends with exactly the C02 verdict under the lock's key (graftrootLock_keypath_run), and a surrogate whose 64-byte signature does not verify under the lock's key over the surrogate's bytes ends the lock in an error at the VERIFY before OP_EVAL - plugin log, random counter and function heap untouched, the surrogate is never evaluated (graftrootLock_surrogate_rejects). "
         "With C02.4 this gives completeness for every permitted flag and makes 'another key / other covered fields / non-permitted flag / different committed script' exactly the C02 / hash rejection conditions. "
-        "Tie: bytes of the single-sig (both layouts), multisig, script-hash, graftroot and graftap lock builders vs the model's builders; verdicts of every witness kind against every lock kind (compatibility table), witnesses by another key, changed covered / excluded sigfields, non-permitted flags, different committed / surrogate scripts, foreign-signed surrogates, one key supplying two distinct signatures to a 2-of-3, holder + outsider - judged on the implementation alone; every list also run on the model.",
+        "Tie: bytes of the single-sig (both layouts), multisig, script-hash, graftroot and graftap lock builders vs the model's builders; verdicts of every witness kind against every lock kind (compatibility table), witnesses by another key, changed covered / excluded sigfields, non-permitted flags, different committed / surrogate scripts, foreign-signed surrogates, one key supplying two distinct signatures to a 2-of-3, holder + outsider - judged on the implementation alone; every list also run on the model. The accepting surrogate path (Props/C13Locks.lean, graftrootLock_surrogate_accepts): a surrogate whose 64-byte signature verifies under the lock's key is evaluated on the remaining stack, and the lock ends with exactly the surrogate script's own outcome - its final stack or its error.",
    note="per-lock theorems: single-sig (both layouts), multisig, script-hash, graftroot (key path; rejection of a foreign-signed surrogate). The accepting surrogate path of graftroot and the graftap lock (taproot of a graftroot script; OP_TAPROOT itself is covered by C05) are tied by builder-bytes comparison and verdict matrices, not by a per-lock theorem. Collision resistance of SHAKE-256 is not assumed: hash conditions are stated as digest equalities.",
    technique="Lean 4 proof (byte-level big-step symbolic execution of the locks on the VM model, refinement to the C02 / C03 pure specs) + verdict-matrix oracle + differential correspondence of builder bytes and runs",
    design="§5 C13"),
